@@ -350,6 +350,16 @@ class BitEval:
     def _call(self, e: ast.Call, depth: int) -> BV:
         fname = norm(e.func)
         short = fname.split(".")[-1]
+        if isinstance(e.func, ast.Attribute) and e.func.attr == "get" and e.args:
+            try:
+                nm = self.repo.fold(e.args[0], ci=self.ci)
+            except NotConst:
+                nm = None
+            if isinstance(nm, str):
+                k = f"{norm(e.func.value)}[{nm!r}]"
+                if k not in self.env:
+                    self.env[k] = BV.term(nm)
+                return self.env[k]
         if fname in ("int", "IntEnum") and len(e.args) == 1:
             return self.ev(e.args[0], depth + 1)
         if fname == "bool" and len(e.args) == 1:
@@ -399,6 +409,14 @@ class BitEval:
         ch = attr_chain(e)
         if ch is not None:
             return ".".join(ch)
+        if isinstance(e, ast.Subscript) and not isinstance(e.slice, ast.Slice):
+            base = self._key(e.value)
+            if base is not None:
+                try:
+                    idx = self.repo.fold(e.slice, ci=self.ci)
+                except NotConst:
+                    return None
+                return f"{base}[{idx!r}]"
         return None
 
     # --------------------------------------------------------------- statements
